@@ -113,9 +113,13 @@ def get_mod_apply_selection_choice(
 
     # Process incompatibility constraints
     confirmed_start_nodes = start_nodes | {target_option_node}
+    removed_edges_before = set(removed_edges)
     try:
         removed_nodes |= get_mod_nodes_remove_incompatibilities(graph, confirmed_start_nodes, removed_edges)
     except IncompatibilityError as e:
+        # The set of removed edges is extended in-place while resolving: discard edges of the failed attempt, otherwise
+        # confirmed nodes lose their deriving edges and the infeasibility marker no longer touches a confirmed node
+        removed_edges = removed_edges_before
         removed_nodes |= e.removed_nodes
         added_edges |= e.edges
 
